@@ -754,6 +754,7 @@ pub trait Runner: Sync + Send {
     fn traits_name(&self) -> &'static str;
     fn cloneable(&self) -> bool;
     fn resizable(&self) -> bool;
+    fn rawparts(&self) -> bool;
     fn fixed_cap(&self) -> Option<usize>;
     /// Execute one edge from canonical state `st`; `fault_at` = k-th user-code invocation panics (0 = none).
     fn run(&self, st: &St, e: &Edge, fault_at: u32) -> Out;
@@ -785,6 +786,7 @@ impl<T: Elem + SatisfyTraits<Tr>, M: MX, Tr: TrX + ?Sized> Runner for Cfg<T, M, 
     fn traits_name(&self) -> &'static str { Tr::name() }
     fn cloneable(&self) -> bool { Tr::CLONEABLE }
     fn resizable(&self) -> bool { M::RESIZABLE }
+    fn rawparts(&self) -> bool { M::RAWPARTS }
     fn fixed_cap(&self) -> Option<usize> { M::fixed_cap(T::SIZE) }
 
     fn sweep_args(&self, len: usize) -> Vec<usize> {
